@@ -4,6 +4,16 @@ their definitions; non-positive speed or distance is rejected.
 
 The tables are `Gen/Units.lean`, regenerated from the Rust source on every run, so every
 `decide +kernel` below is re-checked against what the code says now.
+
+Modelled rather than verified / outside the quantifier:
+* non-finite arguments: `create_time` answers `Ok(NaN)` for a NaN speed or distance (`NaN <= 0` is
+  false in the code's total order), `Ok(0)` for an infinite speed: the property quantifies over every
+  magnitude and sign, the theorems over an ordered field; the harness runs NaN, ±inf and −0.0 through
+  the constructors for the correspondence only (model and code agree bit for bit).
+* `from_str` of the unit families wraps the text in quotes and reads it as a JSON string, so JSON escape
+  sequences are decoded by the code (`"mile\u0073"` parses as miles); the model answers `none` for any
+  text holding a backslash and the harness sends none (the only caller in the application is the Python
+  binding's argument parsing).
 -/
 import Compass.Proofs.Num
 import Compass.Model.Units
